@@ -212,7 +212,9 @@ def _mimic_async[**Args, Result](
         except AttributeError:
             pass
     try:
-        within.__dict__.update(function.__dict__)
+        for key, value in function.__dict__.items():
+            # never override attributes the wrapper already has - it may be an object keeping its own state there
+            within.__dict__.setdefault(key, value)
 
     except AttributeError:
         pass
